@@ -73,3 +73,17 @@ Example exec_inhabited :
   exec_b w_schema (sp_frags w_frag) 8 [(s "v", true); (s "w", false)] 8 (s "Query") (sels_of w_frag)
          (VObj [(s "u", VObj [(s "__typename", VStr (s "A")); (s "x", VNull); (s "a", VNull); (s "id", VStr (s "i"))])]) = true.
 Proof. vm_compute. reflexivity. Qed.
+
+(** ** the unguarded statement C01_response_admitted (Spec.v) is false for the current code *)
+From V Require Import C01.TsLemmas.
+Lemma C01_full_statement_refuted :
+  ~ C01_response_admitted w_schema w_merge (first_def w_merge) (type_of w_merge).
+Proof.
+  intros H.
+  specialize (H (s "Query") (sels_of w_merge) eq_refl 8 [(s "v", true)] 8 v_a_empty).
+  assert (He : exec_b w_schema (sp_frags w_merge) 8 [(s "v", true)] 8 (s "Query") (sels_of w_merge) v_a_empty = true)
+    by (vm_compute; reflexivity).
+  specialize (H He).
+  assert (Hn : has_type_b (schema_env w_schema) 40 (type_of w_merge) v_a_empty = Some false) by (vm_compute; reflexivity).
+  exact (not_in_type _ _ _ _ Hn H).
+Qed.
